@@ -141,6 +141,14 @@ def extra(run, impl, known):
             if st != "ok":
                 raise C.HarnessError("sort driver failed: %r" % (res,))
             results[(mode, hs)] = res
+    failed = {k: v["error"] for k, v in results.items() if v.get("sorted_keys") is None}
+    if failed:
+        run.add_violation("sorted() of a mixed collection of specifications raised: %s" % sorted(set(failed.values()))[:2],
+                          {"property": ID, "kind": "sorting a mixed collection failed", "items": items,
+                           "errors": {"%s/%s" % k: e for k, e in failed.items()},
+                           "python": "sorted(<the interfaces / implementedBy specs built from 'items'>)"},
+                          "sort_raises", no_input=False)
+        return
     first = results[("c", "0")]
     diff = [k for k, v in results.items() if v["sorted_keys"] != first["sorted_keys"]]
     run.coverage["sort_processes"] = len(results)
